@@ -150,6 +150,11 @@ def catalogue():
     add('distance_patches_to_source rank 2', 'distance_patches_to_source', lambda d: d.update(distance_patches_to_source=[d['distance_patches_to_source']]))
     add('energy_init_source fewer patches', 'energy_init_source', lambda d: d.update(energy_init_source=d['energy_init_source'][:-1]))
     add('energy_init_source one band less', 'energy_init_source', lambda d: d.update(energy_init_source=A(d['energy_init_source'])[..., :-1].tolist()))
+    add('energy_init_source rank 2 (band axis dropped)', 'energy_init_source', lambda d: d.update(energy_init_source=A(d['energy_init_source'])[..., 0].tolist()))
+    add('energy_init_source rank 2 (direction axis dropped)', 'energy_init_source', lambda d: d.update(energy_init_source=A(d['energy_init_source'])[:, 0, :].tolist()))
+    add('energy_init_source rank 4', 'energy_init_source', lambda d: d.update(energy_init_source=A(d['energy_init_source'])[..., None].tolist()))
+    add('form_factors_tilde rank 5', 'form_factors_tilde', lambda d: d.update(form_factors_tilde=A(d['form_factors_tilde'])[..., None].tolist()))
+    add('energy_exchange_etc rank 5', 'energy_exchange_etc', lambda d: d.update(energy_exchange_etc=A(d['energy_exchange_etc'])[..., None].tolist()))
     add('energy_exchange_etc fewer patches', 'energy_exchange_etc', lambda d: d.update(energy_exchange_etc=d['energy_exchange_etc'][:-1]))
     add('energy_exchange_etc one sample less', 'energy_exchange_etc', lambda d: d.update(energy_exchange_etc=A(d['energy_exchange_etc'])[..., :-1].tolist()))
     add('energy_exchange_etc rank 3', 'energy_exchange_etc', lambda d: d.update(energy_exchange_etc=A(d['energy_exchange_etc'])[..., 0].tolist()))
